@@ -372,6 +372,26 @@ impl Gen {
             let two = nslots == 2 && w.alive(d);
             let free = st.main_cap.saturating_sub(st.main_len);
             let n = free + self.rng.gen_range(0..3usize);
+            if self.cfg.par && self.rng.gen_bool(0.4) {
+                return self.par_op(w, s, nslots);
+            }
+            if self.cfg.serde && self.rng.gen_bool(0.4) {
+                return json!({"op":"Serde","s":s,"d":d,"hm":self.cfg.hm});
+            }
+            // the consuming iterators look at the (empty) old table first (seed S52), and so may anything
+            // else that walks both tables
+            if self.rng.gen_bool(0.35) {
+                let kinds: &[&str] = if self.cfg.set { &["iter"] } else { &["iter", "iter_mut", "keys", "values", "values_mut"] };
+                return match self.rng.gen_range(0..8) {
+                    0 => json!({"op":"Drain","s":s,"end":"drop","take": self.rng.gen_range(0..=len),"extra":2}),
+                    1 => json!({"op":"Drain","s":s,"end":"exhaust","extra":2}),
+                    2 | 3 => json!({"op":"IntoIter","s":s,"extra":2,"take": self.rng.gen_range(0..=len + 1)}),
+                    4 => json!({"op":"Debug","s":s}),
+                    5 if two => json!({"op":"Eq","s":s,"d":d}),
+                    6 => json!({"op":"Clear","s":s}),
+                    _ => json!({"op":"Iter","s":s,"kind": *kinds.choose(&mut self.rng).unwrap(),"extra":1}),
+                };
+            }
             return match self.rng.gen_range(0..12) {
                 0 | 1 => json!({"op":"Reserve","s":s,"n":n}),
                 2 => json!({"op":"TryReserve","s":s,"n":n}),
